@@ -122,6 +122,8 @@ func checkC10(p *Program, r *Report) {
 	r.Add("C10.scanall", mname, "the output loop is left only when every output has been examined", hdr.Instrs[0].Pos(), earlyExit == "", earlyExit)
 	r.Add("C10.scanall", mname, "every verdict is given after the output loop", hdr.Instrs[0].Pos(), dominatesAllReturns(matcher, hdr), "the loop header dominates every return: matching outputs get their outpoints inserted even when the txid already matched")
 
+	c10pushes(p, r, matcher)
+
 	// ---- C10.outpoint: the update helper call inside the loop
 	var helper *ssa.Function
 	var hcall *ssa.Call
@@ -633,5 +635,231 @@ func checkC10(p *Program, r *Report) {
 	}
 	r.Floor("C10.scanall", 2)
 	r.Floor("C10.outpoint", 2)
+	spenderIndexRule(p, r, "C10.block")
 	r.Floor("C10.block", 5)
+}
+
+// ---- C10.pushes: every data push of an output or input script is tested against the filter.  In the matcher (and
+// the in-repo functions it hands scripts to) each element read from a txscript.PushedData result is passed, whenever
+// it is read, to a function that tests it for membership on all of its paths (the primitive is the function the
+// exported Matches calls; a wrapper counts if it calls the primitive, or another such wrapper, with that argument from
+// a block that dominates all its returns).  A wrapper that skips some pushes (empty ones, long ones, …) does not.
+func c10pushes(p *Program, r *Report, matcher *ssa.Function) {
+	var prim *ssa.Function
+	if m := p.Func("bloom", "(*Filter).Matches"); m != nil {
+		for _, b := range m.Blocks {
+			for _, in := range b.Instrs {
+				if c, ok := in.(*ssa.Call); ok {
+					if cal := c.Call.StaticCallee(); cal != nil && p.InRepo(cal) && cal.Pkg == m.Pkg && len(cal.Params) == 2 {
+						prim = cal
+					}
+				}
+			}
+		}
+	}
+	if prim == nil {
+		r.Unresolved("C10.pushes", "membership primitive called by (*bloom.Filter).Matches")
+		return
+	}
+	memo := map[string]bool{}
+	var always func(fn *ssa.Function, k int, depth int) bool
+	always = func(fn *ssa.Function, k int, depth int) bool {
+		if fn == prim && k == 1 {
+			return true
+		}
+		if depth > 4 || k >= len(fn.Params) {
+			return false
+		}
+		key := fmt.Sprintf("%s#%d", fn.String(), k)
+		if v, ok := memo[key]; ok {
+			return v
+		}
+		memo[key] = false
+		res := false
+		for _, b := range fn.Blocks {
+			for _, in := range b.Instrs {
+				c, ok := in.(*ssa.Call)
+				if !ok {
+					continue
+				}
+				cal := c.Call.StaticCallee()
+				if cal == nil || !p.InRepo(cal) {
+					continue
+				}
+				for ai, a := range c.Call.Args {
+					if a == ssa.Value(fn.Params[k]) && always(cal, ai, depth+1) && dominatesAllReturns(fn, b) {
+						res = true
+					}
+				}
+			}
+		}
+		memo[key] = res
+		return res
+	}
+	n := 0
+	for _, fn := range p.Reachable([]*ssa.Function{matcher}) {
+		if fn.Pkg != matcher.Pkg {
+			continue
+		}
+		// values holding a PushedData result
+		pushed := map[ssa.Value]bool{}
+		for _, b := range fn.Blocks {
+			for _, in := range b.Instrs {
+				if ex, ok := in.(*ssa.Extract); ok && ex.Index == 0 {
+					if c, ok := ex.Tuple.(*ssa.Call); ok && strings.HasSuffix(calleeName(&c.Call), ".PushedData") {
+						pushed[ex] = true
+					}
+				}
+			}
+		}
+		if len(pushed) == 0 {
+			continue
+		}
+		for _, b := range fn.Blocks {
+			for _, in := range b.Instrs {
+				ld, ok := in.(*ssa.UnOp)
+				if !ok || ld.Op != token.MUL {
+					continue
+				}
+				ia, ok := ld.X.(*ssa.IndexAddr)
+				if !ok || !pushed[ia.X] {
+					continue
+				}
+				n++
+				tested := false
+				base := condKeySet(MustCondsAtBlock(fn, b))
+				for _, u := range *ld.Referrers() {
+					c, ok := u.(*ssa.Call)
+					if !ok {
+						continue
+					}
+					cal := c.Call.StaticCallee()
+					if cal == nil || !p.InRepo(cal) {
+						continue
+					}
+					for ai, a := range c.Call.Args {
+						if a == ssa.Value(ld) && always(cal, ai, 0) {
+							// executed whenever the element is read
+							if c.Block() == b || sameKeys(condKeySet(MustCondsAtBlock(fn, c.Block())), base) {
+								tested = true
+							}
+						}
+					}
+				}
+				r.Add("C10.pushes", FnName(fn), "every data push read from the script is tested against the filter", p.InstrPos(ld), tested,
+					"the element is handed, whenever it is read, to a function that tests it for membership on all of its paths")
+			}
+		}
+	}
+	if n == 0 {
+		r.Unresolved("C10.pushes", "loops over txscript.PushedData results below "+FnName(matcher))
+	}
+	r.Floor("C10.pushes", 2)
+}
+
+func condKeySet(cs []Cond) map[string]bool {
+	out := map[string]bool{}
+	for _, c := range cs {
+		out[fmt.Sprintf("%p/%v", c.V, c.Truth)] = true
+	}
+	return out
+}
+
+func sameKeys(a, b map[string]bool) bool {
+	if len(a) != len(b) {
+		return false
+	}
+	for k := range a {
+		if !b[k] {
+			return false
+		}
+	}
+	return true
+}
+
+// spenderIndexRule: the block scanner's index from a transaction id to the earlier transactions that spend one of its
+// outputs is many-valued and is walked completely.  (a) every map update that registers a spender stores
+// append(index[key], …) for the same map and key — a plain assignment keeps only the last spender of a transaction
+// with several spent outputs; (b) the re-check of the registered spenders happens in a loop over the looked-up
+// entry.  Used by C10 (every relevant transaction is reported) and C11 (both builders select that set).
+func spenderIndexRule(p *Program, r *Report, rule string) {
+	scan := p.Func("bloom", "GetMatchedIndices")
+	if scan == nil {
+		r.Unresolved(rule, "bloom.GetMatchedIndices")
+		return
+	}
+	n := 0
+	var idxMap ssa.Value
+	for _, b := range scan.Blocks {
+		for _, in := range b.Instrs {
+			mu, ok := in.(*ssa.MapUpdate)
+			if !ok || !strings.Contains(exprString(mu.Key), "PreviousOutPoint.Hash") {
+				continue
+			}
+			n++
+			idxMap = mu.Map
+			okApp := false
+			how := "the entry is overwritten: " + exprString(mu.Value)
+			if c, ok := mu.Value.(*ssa.Call); ok && isBuiltin(&c.Call, "append") {
+				src := c.Call.Args[0]
+				if ex, ok := src.(*ssa.Extract); ok {
+					src = ex.Tuple
+				}
+				if lk, ok := src.(*ssa.Lookup); ok && lk.X == mu.Map && exprString(lk.Index) == exprString(mu.Key) {
+					okApp = true
+					how = "append(index[key], spender) stored back under the same key"
+				} else {
+					how = "append onto something other than the entry under the same key: " + exprString(c.Call.Args[0])
+				}
+			}
+			r.Add(rule, FnName(scan), "the spender index keeps every spender of a transaction", mu.Pos(), okApp, how)
+		}
+	}
+	if n == 0 {
+		r.Unresolved(rule, "registration of spenders (map update keyed by PreviousOutPoint.Hash) in bloom.GetMatchedIndices")
+		return
+	}
+	// the checker: in-package callee of the scanner that receives the index
+	for _, b := range scan.Blocks {
+		for _, in := range b.Instrs {
+			c, ok := in.(*ssa.Call)
+			if !ok {
+				continue
+			}
+			cal := c.Call.StaticCallee()
+			if cal == nil || !p.InRepo(cal) || cal.Pkg != scan.Pkg {
+				continue
+			}
+			pi := -1
+			for i, a := range c.Call.Args {
+				if a == idxMap {
+					pi = i
+				}
+			}
+			if pi < 0 {
+				continue
+			}
+			// recursive calls of the checker sit in a loop over a lookup in the index parameter
+			for _, cb := range cal.Blocks {
+				for _, ci := range cb.Instrs {
+					rc, ok := ci.(*ssa.Call)
+					if !ok || rc.Call.StaticCallee() != cal {
+						continue
+					}
+					inLoop := false
+					for h := cb; h != nil; h = h.Idom() {
+						if isLoopHeader(h) {
+							for _, pr := range h.Preds {
+								if h.Dominates(pr) && (pr == cb || cb.Dominates(pr) || reachableFrom(cb, nil)[pr]) {
+									inLoop = true
+								}
+							}
+						}
+					}
+					r.Add(rule, FnName(cal), "every registered spender of a matched transaction is re-checked", rc.Pos(), inLoop, "the recursive call is inside a loop over the looked-up entry")
+				}
+			}
+			return
+		}
+	}
 }
